@@ -9,7 +9,7 @@ OP = "certvalidate"
 RULE = ("version-1 certificates over {device, attestation, ui, signer} with real secp256k1 keys (built with the "
         "`ecdsa` package): genuine chains with and without tweaks, re-parented elements, shared ancestors, any "
         "target subset, and every single-point corruption class (bit flips in a message / signature / tweak / "
-        "embedded key, swapped signatures, signature by another key, wrong root, dropped / added tweak); the "
+        "embedded key, DER framing bytes of a signature (tag 0x30 -> 0x31 etc.), swapped signatures, signature by another key, wrong root, dropped / added tweak); the "
         "per-link validity table handed to the Lean model is computed by an implementation independent of the "
         "code under test (ecdsa + explicit point addition vs the secp256k1 binding).  non-trivial = at least one "
         "target has a path of two or more elements; distinct by hash of the canonical case")
@@ -67,7 +67,7 @@ def corrupt(rng, cert, root_sk):
     """one single-point corruption; returns (cert, root_pub65)"""
     c = copy.deepcopy(cert)
     root_pub = certgen.pub65(root_sk)
-    k = rng.randrange(11)
+    k = rng.randrange(13)
     e = rng.choice(c["elements"])
 
     def flip(hexs):
@@ -103,6 +103,18 @@ def corrupt(rng, cert, root_sk):
         i = len(b) - 1 - rng.randrange(64)
         b[i] ^= 1 << rng.randrange(8)
         x["message"] = bytes(b).hex()
+    elif k in (11, 12):
+        # DER framing of the signature: tag / length / integer headers (a lenient parser would let these through)
+        b = bytearray(bytes.fromhex(e["signature"]))
+        lr = b[3]
+        pos = rng.choice([0, 0, 1, 2, 3, 4 + lr, 5 + lr])
+        if pos == 0:
+            b[0] = rng.choice([0x31, 0x31, 0x32, 0x20, 0xb0])
+        else:
+            b[pos] ^= 1 << rng.randrange(8)
+        if rng.random() < 0.15:
+            b = b + bytes([rng.getrandbits(8)])
+        e["signature"] = bytes(b).hex()
     else:
         root_pub = root_pub[:1] + bytes(64)
     return c, root_pub
@@ -130,6 +142,19 @@ def gen(tier, rng):
         inp = {"cert": cert, "root_pub": root_pub.hex(), "root_ok": certgen.parse_pub(root_pub) is not None}
         inp.update(minp_full)
         out.append(Case(OP, inp, stream=kind))
+    # systematic: the first byte of each element's signature replaced by every neighbouring DER tag
+    for i in range(6 if tier == "quick" else 60):
+        root_sk, els, _keys = certgen.genuine_chain(rng)
+        root_pub = certgen.pub65(root_sk)
+        for idx in range(len(els)):
+            for tag in (0x31, 0x32, 0x20):
+                c2 = {"version": 1, "targets": ["device", "attestation", "ui", "signer"], "elements": copy.deepcopy(els)}
+                sig = bytearray(bytes.fromhex(c2["elements"][idx]["signature"]))
+                sig[0] = tag
+                c2["elements"][idx]["signature"] = bytes(sig).hex()
+                inp = {"cert": c2, "root_pub": root_pub.hex(), "root_ok": True}
+                inp.update(model_input(c2, root_pub))
+                out.append(Case(OP, inp, stream="der-tag"))
     if tier == "thorough":
         # exhaustive single-bit flips of one certificate's ui signature and message
         root_sk, els, _k = certgen.genuine_chain(rng)
